@@ -63,7 +63,7 @@ class generic:
     _py = False
 
     def __new__(cls, value=0, *a, **k):
-        if cls in (generic, number, integer, floating, signedinteger, inexact):
+        if cls in (generic, number, integer, floating, signedinteger, unsignedinteger, inexact):
             raise TypeError(f"cannot create '{cls.__name__}' instances")
         return cast_scalar(value, cls)
 
@@ -322,10 +322,17 @@ class number(generic):
 class integer(number):
     __slots__ = ()
     _kind = "i"
+    _unsigned = False
 
 
 class signedinteger(integer):
     __slots__ = ()
+
+
+class unsignedinteger(integer):
+    """Unsigned types keep the internal kind "i" (every integer rule of the model applies); dtype.kind reports "u"."""
+    __slots__ = ()
+    _unsigned = True
 
 
 class inexact(number):
@@ -347,6 +354,24 @@ class int32(signedinteger):
     __slots__ = ()
     _name = "int32"
     _rank = 2
+
+
+class uint16(unsignedinteger):
+    __slots__ = ()
+    _name = "uint16"
+    _rank = 1
+
+
+class uint32(unsignedinteger):
+    __slots__ = ()
+    _name = "uint32"
+    _rank = 2
+
+
+class uint64(unsignedinteger):
+    __slots__ = ()
+    _name = "uint64"
+    _rank = 3
 
 
 class int64(signedinteger):
@@ -425,7 +450,7 @@ class pyfloat(generic):
 
 numbers.Number.register(generic)
 
-NP_TYPES = [bool_, int16, int32, int64, float16, float32, float64, float128]
+NP_TYPES = [bool_, int16, int32, int64, uint16, uint32, uint64, float16, float32, float64, float128]
 BY_NAME = {c._name: c for c in NP_TYPES}
 BY_NAME["longdouble"] = float128
 
@@ -438,7 +463,8 @@ def _mk(cls, v, nan=None):
 
 
 # ----------------------------------------------------------------------------- promotion
-_I2F = {int16: float32, int32: float64, int64: float64}
+_I2F = {int16: float32, int32: float64, int64: float64, uint16: float32, uint32: float64, uint64: float64}
+_U2S = {uint16: int32, uint32: int64, uint64: float64}   # smallest signed type holding every value of the unsigned one
 
 
 def promote_cls(a, b):
@@ -450,6 +476,9 @@ def promote_cls(a, b):
     if b is bool_:
         return a
     if a._kind == b._kind:
+        if a._kind == "i" and a._unsigned != b._unsigned:
+            u, sg = (a, b) if a._unsigned else (b, a)
+            return sg if sg._rank > u._rank else _U2S[u]
         return a if a._rank >= b._rank else b
     i, f = (a, b) if a._kind == "i" else (b, a)
     need = _I2F[i]
@@ -545,7 +574,7 @@ def _or(a, b):
     return z3.Or(a, b)
 
 
-_INT_BITS = {"int16": 16, "int32": 32}
+_INT_BITS = {"int16": 16, "int32": 32, "uint16": 16, "uint32": 32, "uint64": 64}
 # smallest magnitudes that round to infinity in the narrow float types
 _FLOAT_OVERFLOW = {"float16": 65520.0, "float32": 3.4028235677973366e38}
 
@@ -555,6 +584,8 @@ def _wrap_int(v, cls):
     bits = _INT_BITS.get(cls._name)
     if bits is None:
         return v
+    if cls._unsigned:
+        return v % (2 ** bits) if isinstance(v, int) else z3.simplify(v % (2 ** bits))
     half = 2 ** (bits - 1)
     if isinstance(v, int):
         return (v + half) % (2 * half) - half
